@@ -622,6 +622,28 @@ def main(b: bool, c: bool) -> None:
         x(q)
     discard(q)
 ''')
+P("ok_closure_captures_used_in_several_blocks", '''
+@guppy
+def main(a: int, b: int, c: int, f: bool) -> int:
+    def inner(v: int) -> int:
+        if v > 0:
+            s = b + a
+        else:
+            s = c + a
+        return s + b + c
+    return inner(1)
+''')
+P("ok_closure_captures_used_in_loop", '''
+@guppy
+def main(a: int, b: int, c: int) -> int:
+    def inner(v: int) -> int:
+        while v > 0:
+            v -= c
+            if v == 3:
+                v += b
+        return v + a
+    return inner(5)
+''')
 P("ok_dead_after_both_returns", '''
 @guppy
 def main(b: bool) -> int:
@@ -848,6 +870,8 @@ def part3_fresh_process(ctx):
 
 
 def run(ctx):
+    import guppylang_internals.experimental as ex
+    ex.enable_experimental_features()       # capturing closures (inherited by the forked workers)
     p1 = part1_worklists(ctx)
     from checks import c10b
     p2, p3 = c10b.run_parts(ctx, dict(CORPUS))
@@ -882,6 +906,8 @@ def run(ctx):
 
 
 def replay(ctx, item):
+    import guppylang_internals.experimental as ex
+    ex.enable_experimental_features()
     if item.get("part") == 4:
         from checks import c10c
         return c10c.replay(ctx, item)
